@@ -292,6 +292,66 @@ theorem earlier_files_unaffected (pre rest rest' : SourceManager) (loc : Nat) (h
     · simp only [List.cons_append, getFileLocation, hlt, if_false]
       exact ih _ (by simp only [totalSlots] at h; omega)
 
+/-! ## command-line defines (`CompileArgs::defines`)
+
+`preprocess_initial_file` loads every define as a file named `<define>` holding `NAME VALUE` *before* the entry
+file and lexes it from offset 0 of that file: for the source manager they are ordinary files in front of the
+program's files. -/
+
+/-- Tie to the source: how the command-line defines are loaded is what the statements below assume (extracted
+    from `preprocess_initial_file` this run). -/
+theorem commandline_defines_as_modelled :
+    defineFileName = "<define>" ∧ defineFileFormat = "{name} {value}" ∧
+    defineTokensStartAtOffsetZero = true ∧ definesAreLoadedBeforeTheEntryFile = true := by decide
+
+/-- a command-line define as a loaded file -/
+def defineFile (name value : Bytes) : SourceFile :=
+  { name := defineFileName, contents := name ++ strBytes " " ++ value }
+
+/-- **commandline_defines_location.** Whatever defines are passed on the command line (any number, any names and
+    values) and whatever they are replaced by, (1) a position inside a file of the program decodes to that file's
+    own name and to the line and column counted inside that file alone, and so to the same place as without any
+    define; (2) a position inside the text of a define decodes to `<define>` and the line / column inside that
+    text, independently of the program's files; (3) inserting `k` lines into a file of the program moves a later
+    position of that file by exactly `k` lines, same column, with the defines in front. -/
+theorem commandline_defines_location (defs defs' : List (Bytes × Bytes)) (pre post : SourceManager) (f : SourceFile)
+    (off : Nat) (h : off ≤ f.contents.length) :
+    let D := defs.map fun d => defineFile d.1 d.2
+    let D' := defs'.map fun d => defineFile d.1 d.2
+    getFileLocation (D ++ (pre ++ f :: post)) (totalSlots (D ++ pre) + off) =
+      .known f.name (lineCol f.contents off).line (lineCol f.contents off).col ∧
+    getFileLocation (D' ++ (pre ++ f :: post)) (totalSlots (D' ++ pre) + off) =
+      getFileLocation (pre ++ f :: post) (totalSlots pre + off) ∧
+    (∀ (D₁ D₂ : SourceManager) (name value : Bytes) (o : Nat) (rest rest' : SourceManager),
+      o ≤ (defineFile name value).contents.length →
+      getFileLocation (D₁ ++ defineFile name value :: (D₂ ++ rest)) (totalSlots D₁ + o) =
+        .known "<define>" (lineCol (name ++ strBytes " " ++ value) o).line (lineCol (name ++ strBytes " " ++ value) o).col ∧
+      getFileLocation (D₁ ++ defineFile name value :: (D₂ ++ rest')) (totalSlots D₁ + o) =
+        getFileLocation (D₁ ++ defineFile name value :: (D₂ ++ rest)) (totalSlots D₁ + o)) := by
+  intro D D'
+  refine ⟨?_, ?_, ?_⟩
+  · have := (include_location (D ++ pre) post f off h).1
+    simpa [List.append_assoc] using this
+  · have h1 := (include_location (D' ++ pre) post f off h).1
+    have h2 := (include_location pre post f off h).1
+    rw [h2]
+    simpa [List.append_assoc] using h1
+  · intro D₁ D₂ name value o rest rest' ho
+    have h1 := (include_location D₁ (D₂ ++ rest) (defineFile name value) o ho).1
+    have h2 := (include_location D₁ (D₂ ++ rest') (defineFile name value) o ho).1
+    refine ⟨?_, ?_⟩
+    · rw [h1]; rfl
+    · rw [h1, h2]
+
+/-- non-vacuity, and what the real compiler prints for `-D CLD_BAD=(1 + q)` used in `main.rssl`: the `q` of the
+    define is `<define>:1:14`, the first byte of the entry file behind two defines is `main.rssl:1:1` -/
+example :
+    getFileLocation [defineFile (strBytes "CLD_ONE") (strBytes "1"), defineFile (strBytes "CLD_BAD") (strBytes "(1 + q)"),
+      { name := "main.rssl", contents := strBytes "int v = CLD_BAD;\n" }] (10 + 13) = .known "<define>" 1 14 ∧
+    getFileLocation [defineFile (strBytes "CLD_ONE") (strBytes "1"), defineFile (strBytes "CLD_BAD") (strBytes "(1 + q)"),
+      { name := "main.rssl", contents := strBytes "int v = CLD_BAD;\n" }] (10 + 16) = .known "main.rssl" 1 1 := by
+  decide +kernel
+
 /-! ## the printed diagnostic -/
 
 theorem isNl_iff (c : UInt8) : (!isNl c) = (c != 10) := by
